@@ -85,6 +85,9 @@ def run_symgo(prop, run, tier, known_keys):
     for f in harness_files(cfg["hdir"]):
         cmd += ["-file", f]
     cmd += run.get("flags", [])
+    if "-timelimit" not in run.get("flags", []):
+        # no run may hang: past the limit the engine stops and the run is inconclusive (never a pass)
+        cmd += ["-timelimit", run.get("timelimit", "20m" if tier == "quick" else "3h")]
     if tier == "thorough" and run.get("cross", True):
         cmd += ["-cross"]
     for k, v in run.get("stubs", {}).items():
@@ -245,6 +248,11 @@ def check(prop, tier):
     rp = Replayer(prop)
     try:
         for run in runs:
+            if new_viol:
+                # a replay-confirmed violation decides the check: the remaining families are not needed for the
+                # verdict (on a broken tree they can be arbitrarily slow), so they are left out and named
+                print(f"NOTE: {run['harness']} not run: a violation is already confirmed")
+                continue
             res = run_symgo(prop, run, tier, known_keys)
             results.append(res)
             role = run.get("role", "main")
